@@ -320,6 +320,8 @@ class _ListDict_(object):
         if self.weighted:
             weight = self.weight.pop(choice)
             self._total_weight -= weight
+            if not self.items: #no rounding residue left behind by the subtractions
+                self._total_weight = 0
             if weight == self.max_weight:  
                 #if we find ourselves in this case often
                 #it may be better just to let max_weight be the
